@@ -806,7 +806,7 @@ def run(tier: str, replay: str | None = None):
         cases = [{"overloads": c["overloads"], "calls": [c["call"]] if "call" in c else c["calls"], "family": "replay"}]
     else:
         cases = [dict(c, family="corpus") for c in load_corpus()]
-        n_sets = 1500 if tier == "quick" else 12000
+        n_sets = 800 if tier == "quick" else 12000
         for _ in range(n_sets):
             cases.append(gen_case(rng, 8))
 
